@@ -32,10 +32,26 @@ inline std::string fmt(const char *f, ...)
 // The choice stream: the only source of variation in a property.  Reads past
 // the end return 0, and 0 always decodes to the simplest choice, so that
 // byte-level shrinking (drop chunks, reduce bytes) is structural shrinking.
+//
+// Tail mode (opt-in per run, recorded in the replay file as "tier: <tier>+tail"): reads past the end return
+// pseudo-random bytes that are a pure function of (first 8 stream bytes, position), so that a short stream
+// still decodes to a large, fully varied case instead of one whose trailing values are all equal.  The
+// byte at a position does not depend on the stream length, so truncating a stream keeps the rest of the case.
 struct Choice {
-    const uint8_t *d; size_t n; size_t pos;
+    const uint8_t *d; size_t n; size_t pos; uint64_t tail = 0;
     Choice(const uint8_t *data, size_t len) : d(data), n(len), pos(0) {}
-    uint8_t u8() { uint8_t v = pos < n ? d[pos] : 0; ++pos; return v; }
+    void set_tail(bool on) {
+        if (!on) { tail = 0; return; }
+        uint64_t h = 0x9E3779B97F4A7C15ULL;
+        for (size_t i = 0; i < n && i < 8; ++i) { h ^= d[i]; h *= 1099511628211ULL; }
+        tail = h | 1;
+    }
+    uint8_t tail_byte(size_t p) const {
+        uint64_t z = tail + 0x9E3779B97F4A7C15ULL * (uint64_t)(p + 1);
+        z = (z ^ (z >> 30)) * 0xBF58476D1CE4E5B9ULL; z = (z ^ (z >> 27)) * 0x94D049BB133111EBULL; z ^= z >> 31;
+        return (uint8_t)(z >> 24);
+    }
+    uint8_t u8() { uint8_t v = pos < n ? d[pos] : (tail ? tail_byte(pos) : 0); ++pos; return v; }
     unsigned u16() { unsigned a = u8(); unsigned b = u8(); return (a << 8) | b; }
     // uniform-ish in [0,k)
     unsigned below(unsigned k) { if (k <= 1) return 0; if (k <= 256) return u8() % k; return u16() % k; }
@@ -65,6 +81,7 @@ struct Ctx {
     // configuration (set by the front end)
     bool dump = false;            // build a human readable description of the case in `desc`
     int tier = 0;                 // 0 quick, 1 thorough
+    bool tailmode = false;        // pseudo-random continuation of an exhausted choice stream (see Choice)
     char type = 'd';
     std::set<std::string> known;  // ids of known findings that are still open (routing + suppression)
     int fill_override = -1;       // >= 0: byte used to fill fresh library blocks instead of the property's choice
